@@ -37,7 +37,7 @@ Nil == [nb |-> -1, cnt |-> <<>>]
 IsHist(h) == h.nb >= 0 /\ Len(h.cnt) = Pw2(h.nb) /\ \A i \in 1..Len(h.cnt) : h.cnt[i] >= 0
 Total(h) == HSum(h.cnt)
 Live(h)  == h.nb >= 0 /\ Total(h) > 0
-Support(h) == {x \in 0..(Pw2(h.nb) - 1) : h.cnt[x + 1] > 0}
+HSupport(h) == {x \in 0..(Pw2(h.nb) - 1) : h.cnt[x + 1] > 0}
 Mass(h, S) == HSum(TLCEval([i \in 1..Len(h.cnt) |-> IF (i - 1) \in S THEN h.cnt[i] ELSE 0]))
 
 \* ---- bit order reversal (msq_first input) ------------------------------------
@@ -82,15 +82,15 @@ HPostSel(h, E) == HRemove(HFilter(h, MatchSet(E, h.nb)), Constrained(E))
 ResampleOK(h, n, r) ==
   /\ IsHist(r) /\ r.nb = h.nb
   /\ Total(r) = n
-  /\ Support(r) \subseteq Support(h)
+  /\ HSupport(r) \subseteq HSupport(h)
 ResampleVerdict(h, n, r) ==
   IF r.nb # h.nb \/ Len(r.cnt) # Len(h.cnt) THEN "key-width-changed"
   ELSE IF Total(r) # n THEN "total-differs-from-n"
-  ELSE IF ~(Support(r) \subseteq Support(h)) THEN "outcome-outside-support"
+  ELSE IF ~(HSupport(r) \subseteq HSupport(h)) THEN "outcome-outside-support"
   ELSE "ok"
 \* a canonical member of the allowed set (all shots on the smallest supported outcome)
 ResampleCanon(h, n) ==
-  LET x0 == CHOOSE x \in Support(h) : \A y \in Support(h) : x <= y
+  LET x0 == CHOOSE x \in HSupport(h) : \A y \in HSupport(h) : x <= y
   IN [nb |-> h.nb, cnt |-> TLCEval([i \in 1..Len(h.cnt) |-> IF i = x0 + 1 THEN n ELSE 0])]
 \* all members (small widths only)
 ResampleAllSet(h, n) ==
